@@ -532,6 +532,15 @@ def enumerators_follow_star_rule(cx, rep, rid):
                     a = a["e"]
                 if a.get("k") == "Field" and a.get("adt") == adt and a.get("name") in tables:
                     enum_.append(x)
+        # the tables may be handed to a helper that walks them (`self.push_exports_as_values(&exports.named_values, ..)`,
+        # benign b81): a table passed on as an argument is enumerated as well
+        for x in walk(t["body"]):
+            if x["k"] in ("Call", "MethodCall"):
+                for a in (x.get("args") or []):
+                    while a.get("k") in ("AddrOf", "DropTemps"):
+                        a = a["e"]
+                    if a.get("k") == "Field" and a.get("adt") == adt and a.get("name") in tables:
+                        enum_.append({"k": "MethodCall", "recv": a, "line": x["line"]})
         if not enum_:
             continue
         n += 1
